@@ -6,7 +6,7 @@ Import ListNotations.
 Open Scope nat_scope.
 
 Section Sched.
-  Variable fixed : bool.
+  Variable f1 f2 : bool.
   Variable cfg : config.
 
   Definition qaction := @action qstate unit.
@@ -19,7 +19,7 @@ Section Sched.
     end.
 
   (* the worker side: [n] completions of whatever task is running at that moment *)
-  Definition ticks (n : nat) : list qaction := repeat (fun q => (q_tick fixed cfg q, [])) n.
+  Definition ticks (n : nat) : list qaction := repeat (fun q => (q_tick f1 f2 cfg q, [])) n.
 
   Definition q_threads (ops : list op) (nticks : nat) : list (@thread qstate unit) := [sends 0 ops; ticks nticks].
 
@@ -36,8 +36,8 @@ Section Sched.
   Definition q_inv (ops : list op) (q : qstate) : Prop :=
     q_sent q = firstn (length (q_sent q)) ops /\
     q_started q ++ q_pend q = q_sent q /\
-    (q_nvis q <= length (out (ChatQueue.run fixed cfg (q_started q))))%nat /\
-    (q_busy q = false -> q_pend q = [] /\ q_nvis q = length (out (ChatQueue.run fixed cfg (q_started q)))).
+    (q_nvis q <= length (out (ChatQueue.run f1 f2 cfg (q_started q))))%nat /\
+    (q_busy q = false -> q_pend q = [] /\ q_nvis q = length (out (ChatQueue.run f1 f2 cfg (q_started q)))).
 
   Lemma firstn_snoc_nth {X} (l : list X) n x : nth_error l n = Some x -> firstn (S n) l = firstn n l ++ [x].
   Proof.
@@ -46,8 +46,8 @@ Section Sched.
     - intros H. now rewrite <- (IH n H).
   Qed.
 
-  Lemma grow_len l x : (length (out (ChatQueue.run fixed cfg l)) <= length (out (ChatQueue.run fixed cfg (l ++ [x]))))%nat.
-  Proof. destruct (run_out_grows fixed cfg l [x]) as [e ->]. rewrite app_length. lia. Qed.
+  Lemma grow_len l x : (length (out (ChatQueue.run f1 f2 cfg l)) <= length (out (ChatQueue.run f1 f2 cfg (l ++ [x]))))%nat.
+  Proof. destruct (run_out_grows f1 f2 cfg l [x]) as [e ->]. rewrite app_length. lia. Qed.
 
   Lemma send_inv ops i x q : nth_error ops i = Some x -> q_inv ops q -> q_inv ops (q_send i x q).
   Proof.
@@ -63,7 +63,7 @@ Section Sched.
       + split; [|discriminate]. pose proof (grow_len (q_started q) x). lia.
   Qed.
 
-  Lemma tick_inv ops q : q_inv ops q -> q_inv ops (q_tick fixed cfg q).
+  Lemma tick_inv ops q : q_inv ops q -> q_inv ops (q_tick f1 f2 cfg q).
   Proof.
     intros (H1 & H2 & H3 & H4). unfold q_tick. destruct (q_busy q) eqn:Hb; [|(split; [|split; [|split]]; try assumption; intros _; apply H4; reflexivity)].
     destruct (q_pend q) as [|x r] eqn:Hp; unfold q_inv; cbn [q_sent q_started q_pend q_busy q_nvis].
@@ -88,18 +88,18 @@ Section Sched.
   (* what has reached the backend is a prefix of what the sequential semantics sends for the
      whole history, hence in client order *)
   Lemma visible_prefix ops q : q_inv ops q ->
-    q_visible fixed cfg q = firstn (q_nvis q) (out (ChatQueue.run fixed cfg ops)) /\
-    subseq (bp_ids (q_visible fixed cfg q)) (op_ids ops) = true.
+    q_visible f1 f2 cfg q = firstn (q_nvis q) (out (ChatQueue.run f1 f2 cfg ops)) /\
+    subseq (bp_ids (q_visible f1 f2 cfg q)) (op_ids ops) = true.
   Proof.
     intros (H1 & H2 & H3 & H4). unfold q_visible.
     assert (Hops : exists m, ops = q_started q ++ m).
     { exists (q_pend q ++ skipn (length (q_sent q)) ops). rewrite app_assoc, H2.
       rewrite H1 at 1. symmetry. apply firstn_skipn. }
-    destruct Hops as [m Hm]. destruct (run_out_grows fixed cfg (q_started q) m) as [e He].
-    assert (Hv : firstn (q_nvis q) (out (ChatQueue.run fixed cfg ops)) = firstn (q_nvis q) (out (ChatQueue.run fixed cfg (q_started q)))).
+    destruct Hops as [m Hm]. destruct (run_out_grows f1 f2 cfg (q_started q) m) as [e He].
+    assert (Hv : firstn (q_nvis q) (out (ChatQueue.run f1 f2 cfg ops)) = firstn (q_nvis q) (out (ChatQueue.run f1 f2 cfg (q_started q)))).
     { rewrite Hm at 1. rewrite He, firstn_app. replace (q_nvis q - _)%nat with 0%nat by lia. cbn. now rewrite app_nil_r. }
     split; [now rewrite Hv|].
-    rewrite <- Hv. apply (subseq_prefix _ _ (bp_ids (skipn (q_nvis q) (out (ChatQueue.run fixed cfg ops))))).
+    rewrite <- Hv. apply (subseq_prefix _ _ (bp_ids (skipn (q_nvis q) (out (ChatQueue.run f1 f2 cfg ops))))).
     rewrite <- bp_ids_app, firstn_skipn. apply run_order.
   Qed.
 
@@ -107,7 +107,7 @@ Section Sched.
      sequential output *)
   Lemma quiescent_complete ops q : q_inv ops q ->
     length (q_sent q) = length ops -> q_busy q = false ->
-    q_visible fixed cfg q = out (ChatQueue.run fixed cfg ops).
+    q_visible f1 f2 cfg q = out (ChatQueue.run f1 f2 cfg ops).
   Proof.
     intros (H1 & H2 & H3 & H4) Hlen Hb. destruct (H4 Hb) as [Hp Hv]. unfold q_visible.
     rewrite Hlen, firstn_all in H1. rewrite Hp, app_nil_r in H2. rewrite H2, H1, Hv.
@@ -121,15 +121,15 @@ End Sched.
 Example sched_small :
   let cfg := mkCfg false false in
   let ops := [Ack 45; Chat 1 2 false; Cmd 2 1 false OConsumed]%N in
-  let ts := q_threads true cfg ops 3 in
+  let ts := q_threads true true cfg ops 3 in
   length (all_schedules ts) = 20%nat /\
   check_all_schedules ts q_init (fun q _ =>
-    let v := q_visible true cfg q in
-    let full := out (ChatQueue.run true cfg ops) in
+    let v := q_visible true true cfg q in
+    let full := out (ChatQueue.run true true cfg ops) in
     match full with
     | [a; b; c] => match v with [] => true | [x] => true | [x; y] => true | [x; y; z] => true | _ => false end
     | _ => false
     end) = true /\
-  q_visible true cfg (final_state (Conc.run ts [0; 0; 0; 1; 1; 1] q_init)) = [PAck 25; PChat 1 22; PAck 1]%N /\
-  q_visible true cfg (final_state (Conc.run ts [0; 1; 1; 0; 0; 1] q_init)) = [PAck 25; PChat 1 22]%N.
+  q_visible true true cfg (final_state (Conc.run ts [0; 0; 0; 1; 1; 1] q_init)) = [PAck 25; PChat 1 22; PAck 1]%N /\
+  q_visible true true cfg (final_state (Conc.run ts [0; 1; 1; 0; 0; 1] q_init)) = [PAck 25; PChat 1 22]%N.
 Proof. vm_compute. repeat split; reflexivity. Qed.
